@@ -84,11 +84,28 @@ func c07Generic(w *run.W, fam string, pr impl.Project, e *impl.ErrObs, wantTrace
 					cls = "stale-tracer-of-including-file"
 				}
 			}
+			if cls == "stale-tracer-of-including-file" && scannerOwnError(pr, e) {
+				// the recorded finding is the tracer cached in the *directives* of an including file, which errors located on a
+				// directive carry; an error the scanner raises itself belongs to no directive, takes its trace from the live
+				// scanner stack and is right on the pinned tree - a stale trace there is a different violation
+				cls = "stale-trace-on-lexical-error"
+			}
 			w.Violation("C07", "include-trace:"+cls, fmt.Sprintf("[%s] Error() is\n%s\nexpected\n%s\n%s", fam, e.Full, want, trunc(showProject(pr), 900)), detail)
 			return
 		}
 	}
 	w.Count("located_ok", 1)
+}
+
+// scannerOwnError: is this the error the raw scanner (no directive tree, no context resolution, no INCLUDE) raises by itself on the
+// bytes of the file the error names - same message, same index? Such an error belongs to no directive.
+func scannerOwnError(pr impl.Project, e *impl.ErrObs) bool {
+	content, ok := pr.Files[e.File]
+	if !ok {
+		return false
+	}
+	o := impl.Scan(content, 0)
+	return o.Panic == nil && o.Err != nil && o.Err.Msg == e.Msg && o.Err.Index == e.Index
 }
 
 // traceDiffClass: "line-of-earlier-include-in-same-file" when the only difference is that an INCLUDE entry carries the
@@ -197,11 +214,14 @@ func workC07Graphs(w *run.W) {
 		for ff := 0; ff < n; ff++ { // file that holds the fault
 			for fi, fk := range c07Faults {
 				for pos := 0; pos <= len(graph[ff]); pos++ { // fault before include #pos
-					for ei, eol := range []string{"\n", "\r\n", "\r", "deep\n", "long\n"} {
+					for ei, eol := range []string{"\n", "\r\n", "\r", "deep\n", "long\n", "urls\n"} {
 						// "deep": the fault line is indented by 230 blanks; "long": it carries a 260-byte annotation (quote rule)
 						variant := ""
 						if strings.HasSuffix(eol, "\n") && len(eol) > 2 {
 							variant, eol = eol[:4], "\n"
+						}
+						if variant == "urls" && strings.Contains(fk.Name, "unclosed-parenthesis") {
+							continue // the URL lines of the files included next would stand inside the open '(' - another error
 						}
 						idx++
 						if !w.Mine(idx) {
@@ -221,6 +241,11 @@ func workC07Graphs(w *run.W) {
 								lines = append(lines, "JSIGHT 0.3")
 							}
 							lines = append(lines, fmt.Sprintf("# file %d", i), "")
+							if variant == "urls" && i != 0 {
+								// an ordinary directive in every included file: the directives of a completed inclusion leave
+								// their include tracer behind, which an error met in a later sibling inclusion must not pick up
+								lines = append(lines, fmt.Sprintf("URL /u%d", i))
+							}
 							for k := 0; k <= len(graph[i]); k++ {
 								if i == ff && k == pos {
 									lines = append(lines, "# fault follows")
